@@ -221,6 +221,7 @@ pub fn spec_of(d: &ActorDecl) -> Arc<Spec> {
         stopped: d.stopped.clone(),
         started_err_at: d.started_err_at.clone(),
         aux_work: d.aux_work,
+        tick_work: d.tick_work,
         aux_yield: d.aux_yield,
     })
 }
